@@ -48,11 +48,11 @@ def pairs_for(rules: Rules, dev: STR, dn: STR, nb: STR, nn: STR) -> Pairs:
     if not rules:
         return []
     r = rules[0]
-    a = mp(r["matcher"], dn, nn)
-    b = mp(r["matcher"], nn, dn)
-    pa = [{"handler": r["handler"], "port_processor": r["port_processor"], "direct_order": True, "name_left": dev, "name_right": nb,
+    a = mp(r.matcher, dn, nn)
+    b = mp(r.matcher, nn, dn)
+    pa = [{"handler": r.handler, "port_processor": r.port_processor, "direct_order": True, "name_left": dev, "name_right": nb,
            "match_left": a[0], "match_right": a[1]}] if a else []
-    pb = [{"handler": r["handler"], "port_processor": r["port_processor"], "direct_order": False, "name_left": nb, "name_right": dev,
+    pb = [{"handler": r.handler, "port_processor": r.port_processor, "direct_order": False, "name_left": nb, "name_right": dev,
            "match_left": b[0], "match_right": b[1]}] if b else []
     return pa + pb + pairs_for(rules[1:], dev, dn, nb, nn)
 
@@ -69,13 +69,47 @@ def ld_nested(regs: RegL, dev: STR, nbs: SEQS) -> Pairs:
 
 @M.spec
 def ld(reg: Reg, dev: STR, nbs: SEQS) -> Pairs:
-    return ld_n(nbs, reg["direct_rules"], dev, reg["match_short_name"]) + ld_nested(reg["nested"], dev, nbs)
+    return ld_n(nbs, reg.direct_rules, dev, reg.match_short_name) + ld_nested(reg.nested, dev, nbs)
 
 
 M.contract(F, "MeshRulesRegistry._normalize_host", params=dict(self=Reg, host=STR), ret=STR, trusted=True,
            ensures=["result == nh(self.match_short_name, host)"], note="str.split(maxsplit=1)[0]: opaque nh", properties=["C15"])
 
+def _mesh_registries():
+    from annet.mesh.registry import MeshRulesRegistry
+
+    def h(*a, **k):
+        return None
+    for short in (False, True):
+        r = MeshRulesRegistry(match_short_name=short)
+        r.direct("sp{n}", "tr{n}")(h)
+        r.direct("{name}", "tr1")(h)
+        r.indirect("sp{n}", "sp{m}")(h)
+        yield r
+        r2 = MeshRulesRegistry(match_short_name=short)
+        r2.direct("tr{n}", "sp{n}")(h)
+        r2.indirect("tr{n}", "{name}")(h)
+        r2.include(r)
+        yield r2
+        yield MeshRulesRegistry(match_short_name=short)
+
+
+def _mesh_inputs(kind):
+    names = ["sp1", "tr1", "sp2.example.net", "tr2", "other"]
+    for reg in _mesh_registries():
+        for dev in names:
+            for nbs in ([], ["tr1"], ["sp1", "tr1", "tr2"], names):
+                yield dict(self=reg, device=dev, **{("neighbors" if kind == "direct" else "devices"): list(nbs)})
+
+
+def _as_dicts(method):
+    def call(self, **kw):
+        return [{f: getattr(p, f) for f in p.__slots__} for p in getattr(self, method)(**kw)]
+    return call
+
+
 M.contract(F, "MeshRulesRegistry.lookup_direct", params=dict(self=Reg, device=STR, neighbors=SEQS), ret=Pairs,
+           inputs=lambda: _mesh_inputs("direct"), native_fn=_as_dicts("lookup_direct"),
            locals=dict(found=Pairs, args=OptArgs),
            ensures=["result == ld(self, device, neighbors)"],
            loops={1: dict(match="neighbors",
@@ -140,10 +174,10 @@ def ipairs_for(rules: IRules, dev: STR, dn: STR, nb: STR, nn: STR) -> IPairs:
     if not rules:
         return []
     r = rules[0]
-    a = mp(r["matcher"], dn, nn)
-    b = mp(r["matcher"], nn, dn)
-    pa = [{"handler": r["handler"], "direct_order": True, "name_left": dev, "name_right": nb, "match_left": a[0], "match_right": a[1]}] if a else []
-    pb = [{"handler": r["handler"], "direct_order": False, "name_left": nb, "name_right": dev, "match_left": b[0], "match_right": b[1]}] if b else []
+    a = mp(r.matcher, dn, nn)
+    b = mp(r.matcher, nn, dn)
+    pa = [{"handler": r.handler, "direct_order": True, "name_left": dev, "name_right": nb, "match_left": a[0], "match_right": a[1]}] if a else []
+    pb = [{"handler": r.handler, "direct_order": False, "name_left": nb, "name_right": dev, "match_left": b[0], "match_right": b[1]}] if b else []
     return pa + pb + ipairs_for(rules[1:], dev, dn, nb, nn)
 
 
@@ -159,7 +193,7 @@ def li_nested(regs: IRegL, dev: STR, nbs: SEQS) -> IPairs:
 
 @M.spec
 def li(reg: IReg, dev: STR, nbs: SEQS) -> IPairs:
-    return li_n(nbs, reg["indirect_rules"], dev, reg["match_short_name"]) + li_nested(reg["nested"], dev, nbs)
+    return li_n(nbs, reg.indirect_rules, dev, reg.match_short_name) + li_nested(reg.nested, dev, nbs)
 
 
 @M.spec
@@ -177,6 +211,7 @@ M.contract(F, "IView._normalize_host", params=dict(self=IReg, host=STR), ret=STR
            ensures=["result == nh(self.match_short_name, host)"], note="the same method seen from the indirect view of the registry",
            properties=["C15"])
 M.contract(F, "MeshRulesRegistry.lookup_indirect", params=dict(self=IReg, device=STR, devices=SEQS), ret=IPairs,
+           inputs=lambda: _mesh_inputs("indirect"), native_fn=_as_dicts("lookup_indirect"),
            locals=dict(found=IPairs, args=OptArgs),
            ensures=["result == li(self, device, devices)"],
            loops={1: dict(match="devices",
